@@ -88,6 +88,7 @@ def handleCase (mode : String) (id : Nat) (hdr body : List Sexp) : String :=
       else s!"R {id} CORR=diff SPEC=fail:context-hook-error-{out}-clean{clean}-next{nxt} SPECM=ok | expected {expected}, clean scheduler, next computation ok"
     | _, _ => s!"R {id} CORR=diff SPEC=ok SPECM=ok | unparsable ctxraise case"
   | "futures" => Drv.Futures.handle id hdr body
+  | "futsubs" => Drv.Futures.handleSubs id hdr body
   | "core" => Drv.Core.handle id hdr body
   | "threads" => Drv.Threads.handle id hdr body
   | "asyncio" => Drv.Asyncio.handle id hdr body
